@@ -21,6 +21,8 @@ CHECKS = {
             "The invariant of the statement is checked on each value the real library hands out, including values whose parts were rewritten by hostile finish hooks; stored parts are inspected through into_builder().", "6/C04"),
     "C05": ("runtime monitoring: strict recogniser R1 (never-accepted clause, exhaustive token language) + single-fault injection into legal spellings (error clause), injector cross-checked by R1",
             "Every string with a listed defect that the workload produces is fed to the real parser; acceptance, or a wrong error variant when the defect is provably the only one, is a violation. Complete for the bounded token language.", "6/C05"),
+    "C06": ("runtime monitoring: catch_unwind + panic-hook oracle on every public call (built with overflow-checks and debug-assertions) over exhaustive token language, mutated corpus, escape soup, 1 MiB inputs, builder / qualifier / checksum histories; supervisor thread enforcing a thread-CPU bound; documented panics checked against a model",
+            "Each call group runs under catch_unwind with message and location captured; the three documented panics are accepted only where the reference map / shape says their precondition holds; non-termination is judged as bounded progress (120 s thread CPU per input, confirmed alone in a subprocess).", "6/C06"),
     "C07": ("runtime monitoring: independent raw-piece scanner + own percent decoder compared with reported namespace/subpath segments; exhaustive piece sequences (17 piece kinds, <=4/5 pieces)",
             "Every accepted string is re-scanned independently and the reported segments must equal the decoded significant pieces; exhaustive over bounded piece sequences in both positions.", "6/C07"),
     "C08": ("runtime monitoring: name-rule model R4 + differential twins (parser vs builder, typed vs untyped) over every scalar value, all short names, token language, spellings",
@@ -29,10 +31,22 @@ CHECKS = {
             "Each history runs on the real builder and on the model; build outcome, accessors, re-parse of the string form and commutation of adjacent calls on different fields are judged per history.", "6/C09"),
     "C10": ("runtime monitoring: metamorphic oracle into_builder().build() == identity on every parsed and built value, 5 type parameters, all 7 package types",
             "Every value of the workload is converted back into a builder and re-built by the real library; equality and identical string are judged per value.", "6/C10"),
+    "C11": ("runtime monitoring: lock-step reference map R5 (BTreeMap keyed by lower-cased key) over every reachable content of a small universe x every operation form, and long random histories; return values and full state compared after every step",
+            "All 43 public operation forms of Qualifiers / Entry / iterators / QualifierKey are driven on the real collection and on the model; every return value, the iteration from both ends, len, Eq/Hash/Ord are compared per transition.", "6/C11"),
+    "C12": ("runtime monitoring: checksum model R6 against the real HashMap-backed Checksum on many fresh instances per history (distinct hash iteration orders counted), all insertion orders for n<=4, PURL parse/build round trip, offline cross-process comparison of canonical texts",
+            "Each history is executed on fresh randomly seeded instances; canonical text, parse-back, decoding and typed accessors are judged per instance, and the texts of several separate processes are compared.", "6/C12"),
     "C13": ("runtime monitoring: N-version differential comparison of the built-in type parameters (parser: String vs SmallString on the exhaustive token language; builder: String vs Cow::Borrowed vs Cow::Owned vs SmallString incl. invalid type strings)",
             "The same input is executed under every built-in type parameter and complete outcomes (setter results, Ok/Err, accessors, canonical string) are compared.", "6/C13"),
     "C14": ("runtime monitoring: online trace-specification checker over the call events of a 3072-member family of harness-side PurlShape+FromStr implementations, plus value model post(edit(seen))",
             "Each run's event trace (conversion / hook calls with arguments) is checked against the call protocol, and the result against what the hook wrote followed by the generic post-checks.", "6/C14"),
+    "C15": ("runtime monitoring: table R8 + equations over all 192 case variants, every string <= 6 over the name letters and look-alikes, all one-edit neighbours, other spec types, padded forms",
+            "Every string of the enumerated spaces is given to PackageType::from_str and acceptance is judged against ASCII-lower-cased equality with a name; all seven spellings of each variant are compared.", "6/C15"),
+    "C16": ("runtime monitoring: differential oracle Deserialize vs FromStr and Serialize vs Display (serde_json, plain and \\u-escaped), a recording Serializer that must see exactly one string, non-string values via serde value deserializers",
+            "Every input string of the workload goes through both entry points and outcomes are compared; every accepted value is serialised through serde_json and through a recording serializer.", "6/C16"),
+    "C17": ("runtime monitoring: offline comparison of per-configuration transcripts (one deterministic input stream executed by four binaries built with {}, {package-type}, {default}, {default,serde})",
+            "The same inputs are executed under each feature set of the real crate and the rendered results (accessors, canonical string, error variant and text) are compared line by line via block hashes.", "6/C17"),
+    "C18": ("runtime monitoring: split model + inverse relation combined_name -> builder_with_combined_name, exhaustive over short strings x 7 types, random hostile strings, typed PURLs from the spelling generator",
+            "Every combined-name string is split by the real constructor and compared with the three-line model; for every typed PURL meeting the side condition the inverse relation is executed and judged.", "6/C18"),
     "C19": ("runtime monitoring: algebraic monitor over batches of near-colliding values (==, Hash, Ord, partial_cmp, antisymmetry, sorted-order transitivity, HashSet/BTreeSet/string-set sizes), 4 type parameters",
             "All ordered pairs of each batch are compared through the real trait implementations and judged against canonical-string equality; batches are built from spellings, twins and one-separator-moved variants.", "6/C19"),
 }
